@@ -58,7 +58,8 @@ Trs == /\ pc = "ranges" /\ Len(ranges) = NDims
        /\ arr' = <<>> /\ pc' = "fill" /\ UNCHANGED <<hex, orient, order, first, eight, h7, ranges>>
 Size == LET RECURSIVE Pr(_) Pr(d) == IF d = 0 THEN 1 ELSE (ranges[d][2] - ranges[d][1] + 1) * Pr(d - 1) IN Pr(Len(ranges))
 Fill == /\ pc = "fill" /\ Len(arr) < Size
-        /\ \E u \in {0, 1, 2, 3} : arr' = Append(arr, u)
+        (* a FILL transformation of the whole lattice can only be written on the form FILL=n (completed by --lattice) *)
+        /\ \E u \in IF ftr.has THEN (IF arr = <<>> THEN {2, 3} ELSE {arr[1]}) ELSE {0, 1, 2, 3} : arr' = Append(arr, u)
         /\ UNCHANGED <<pc, hex, orient, order, first, eight, h7, ranges, ftr, ctr, ltr>>
 Done == /\ pc = "fill" /\ Len(arr) = Size /\ pc' = "emit"
         /\ UNCHANGED <<hex, orient, order, first, eight, h7, ranges, arr, ftr, ctr, ltr>>
@@ -108,7 +109,8 @@ PlainCell(n, geom, u, mat) ==
    lranges |-> <<>>, lunivs |-> <<>>, lvecs |-> <<>>, latopt |-> FALSE]
 Deck ==
   LET lc == [PlainCell(10, CellGeom, 1, 3) EXCEPT !.lat = 2, !.lranges = ranges, !.lunivs = arr, !.lvecs = LVecs,
-                                                   !.hasftr = ftr.has, !.ftr = ftr.tr, !.hastrcl = ltr.has, !.trcl = ltr.tr]
+                                                   !.hasftr = ftr.has, !.ftr = ftr.tr, !.hastrcl = ltr.has, !.trcl = ltr.tr,
+                                                   !.latopt = ftr.has, !.fill = IF ftr.has THEN arr[1] ELSE 0]
       world == << [PlainCell(1, S(-1), 0, 0) EXCEPT !.fill = 1, !.hasftr = ctr.has, !.ftr = ctr.tr],
                   [PlainCell(2, S(1), 0, 0) EXCEPT !.imp = 0] >>
       u2 == << PlainCell(21, <<"*", S(-21), S(-22)>>, 2, 1), PlainCell(22, <<"C", 21>>, 2, 2) >>
